@@ -22,6 +22,7 @@ def resolveHere (c : BI) (b : Block) (k : Nat) : Option Instr :=
     else if k ∈ b.breaks then some (Instr.jump (CS.rel bp k)) else none
   | .label _ bp => if k ∈ b.breaks then some (Instr.jump (CS.rel bp k)) else none
   | .scope n => if k ∈ b.breaks then some (Instr.leaveBlock n) else none
+  | .iscope => if k ∈ b.breaks then some (Instr.leaveBlock 1) else none
   | .try_ => none
   | .with_ => none
 
@@ -46,6 +47,7 @@ def MatchB (c : BI) (b : Block) : Prop :=
   | .try_ => b.typ = BT.try_ ∧ b.label = none ∧ b.breaks = [] ∧ b.conts = []
   | .scope _ => b.typ = BT.scope ∧ b.label = none ∧ b.conts = []
   | .with_ => b.typ = BT.with_ ∧ b.label = none ∧ b.breaks = [] ∧ b.conts = []
+  | .iscope => b.typ = BT.iterScope ∧ b.label = none ∧ b.conts = []
 
 def Match : List BI → List Block → Prop
   | [], [] => True
@@ -193,6 +195,7 @@ def LeaveOK (c : BI) (sz : Nat) (b : Block) : Prop :=
   | .loop _ bp cp => bp = sz ∧ cp = b.cont
   | .label _ bp => bp = sz
   | .scope _ => b.breaks = []
+  | .iscope => b.breaks = []
   | _ => True
 
 /-- compiler.go:340 leaveBlock: patching the head block's placeholders = dropping the head of `ctx` -/
@@ -245,6 +248,11 @@ theorem RL_leaveBlock {c : BI} {ctx : List BI} {cs : CS} {b : Block} {r : List B
     | with_ =>
       have ht : b.typ = BT.with_ := hm2.1
       simp only [CS.leaveBlock, hb, ht, resolveHere, hm2.2.2.1]
+      simp
+    | iscope =>
+      have ht : b.typ = BT.iterScope := hm2.1
+      have hbr : b.breaks = [] := hc
+      simp only [CS.leaveBlock, hb, ht, resolveHere, hbr]
       simp
 
 theorem pendAll_tail {b : Block} {r : List Block} {k : Nat} (h : k ∈ pendAll r) : k ∈ pendAll (b :: r) := by
@@ -312,6 +320,55 @@ theorem RL_leaveScopeBlock {ctx : List BI} {cs : CS} {b : Block} {r : List Block
     have := (Inv_emit hi (Instr.leaveBlock n)).p k this
     simpa [cs2, foldl_set_size] using this
   exact Inv_leaveBlock (c := BI.scope n) (b := { b with breaks := [] }) (r := r) rfl hi2
+
+theorem RL_leaveScopeBlockI {ctx : List BI} {cs : CS} {b : Block} {r : List Block}
+    (hb : cs.blocks = b :: r) (hi : Inv (BI.iscope :: ctx) cs) :
+    RL ctx (cs.leaveScopeBlock 1) = RL (BI.iscope :: ctx) cs ++ [Instr.leaveBlock 1] ∧
+    Inv ctx (cs.leaveScopeBlock 1) := by
+  have hm := hi.m
+  rw [hb] at hm
+  let cs1 := cs.emit (Instr.leaveBlock 1)
+  have hb1 : cs1.blocks = b :: r := by simp [cs1, CS.emit, hb]
+  let cs2 : CS := { code := b.breaks.foldl (fun c pc => c.setIfInBounds pc (Instr.leaveBlock 1)) cs1.code,
+                    blocks := { b with breaks := [] } :: r }
+  have hunf : cs.leaveScopeBlock 1 = cs2.leaveBlock := by
+    simp only [CS.leaveScopeBlock]
+    show (match cs1.blocks with
+          | [] => cs1
+          | b :: r => CS.leaveBlock { code := b.breaks.foldl (fun c pc => c.setIfInBounds pc (Instr.leaveBlock 1)) cs1.code,
+                                      blocks := { b with breaks := [] } :: r }) = cs2.leaveBlock
+    rw [hb1]
+  have hA : RL (BI.iscope :: ctx) cs2 = RL (BI.iscope :: ctx) cs1 := by
+    apply RL_ext (ctx := BI.iscope :: ctx) (ctx' := BI.iscope :: ctx) (cs := cs1) (cs' := cs2) (by simp [cs2, foldl_set_size])
+    intro k hk
+    simp only [cs2, hb1, pend]
+    cases hp : pend ctx r k with
+    | some i => rfl
+    | none =>
+      simp only [resolveHere, List.not_mem_nil, if_false, Option.getD_none]
+      rw [foldl_set_getElem?]
+      by_cases h2 : k ∈ b.breaks
+      · simp [h2, hk]
+      · simp [h2]
+  have hm2 : MatchB (BI.iscope) { b with breaks := [] } := by
+    obtain ⟨h1, h2⟩ := hm.1
+    exact ⟨h1, h2⟩
+  have hB : RL ctx cs2.leaveBlock = RL (BI.iscope :: ctx) cs2 :=
+    RL_leaveBlock (c := BI.iscope) (b := { b with breaks := [] }) (r := r) rfl hm2 rfl
+  have hC : RL (BI.iscope :: ctx) cs1 = RL (BI.iscope :: ctx) cs ++ [Instr.leaveBlock 1] := RL_emit hi _
+  refine ⟨by rw [hunf, hB, hA, hC], ?_⟩
+  rw [hunf]
+  have hi2 : Inv (BI.iscope :: ctx) cs2 := by
+    refine ⟨⟨hm2, hm.2⟩, fun k hk => ?_⟩
+    have : k ∈ pendAll cs1.blocks := by
+      rw [hb1]
+      simp only [cs2, pendAll, List.flatMap_cons, List.nil_append, List.mem_append] at hk ⊢
+      rcases hk with hk | hk
+      · left; right; exact hk
+      · right; exact hk
+    have := (Inv_emit hi (Instr.leaveBlock 1)).p k this
+    simpa [cs2, foldl_set_size] using this
+  exact Inv_leaveBlock (c := BI.iscope) (b := { b with breaks := [] }) (r := r) rfl hi2
 
 /-! ### break / continue -/
 
@@ -384,17 +441,30 @@ def stepB (b : Block) (code : Array Instr) : Block × Array Instr :=
   | _ => (b, code)
 
 theorem branchF_cons (t : Nat) (isBreak cfl : Bool) (b : Block) (rest : List Block) (code : Array Instr)
-    (ht : rest.length ≠ t) (hty : b.typ ≠ BT.iterScope) :
+    (ht : rest.length ≠ t) (hns : ¬ (b.typ = BT.iterScope ∧ cfl = true ∧ rest.length = t + 1)) :
     branchF t isBreak cfl (b :: rest) code =
       { code := (branchF t isBreak cfl rest (stepB b code).2).code,
         blocks := (stepB b code).1 :: (branchF t isBreak cfl rest (stepB b code).2).blocks } := by
   have hw : exitWalk t cfl (b :: rest) code =
       ((stepB b code).1 :: (exitWalk t cfl rest (stepB b code).2).1, (exitWalk t cfl rest (stepB b code).2).2) := by
-    simp only [exitWalk, ht, if_false, hty, false_and, stepB]
+    simp only [exitWalk, ht, if_false, hns, stepB]
     cases hb : b.typ <;> simp_all
   simp only [branchF, hw]
   have hl : (exitWalk t cfl rest (stepB b code).2).1.length ≠ t := by rw [exitWalk_len]; exact ht
   simp [modAtHeight, hl]
+
+/-- emitBlockExitCode:618: a `continue` of a plain loop does not leave that loop's own per-iteration scope -/
+theorem branchF_stop (t : Nat) (isBreak : Bool) (b : Block) (rest : List Block) (code : Array Instr)
+    (hty : b.typ = BT.iterScope) (ht : rest.length = t + 1) :
+    branchF t isBreak true (b :: rest) code =
+      { code := (branchF t isBreak true rest code).code,
+        blocks := b :: (branchF t isBreak true rest code).blocks } := by
+  cases rest with
+  | nil => simp at ht
+  | cons lb r =>
+    have hr : r.length = t := by simpa using ht
+    have hne : (lb :: r).length ≠ t := by simp; omega
+    simp [branchF, exitWalk, modAtHeight, hty, hr, hne, ht]
 
 theorem branchF_here (isBreak cfl : Bool) (b : Block) (rest : List Block) (code : Array Instr) :
     branchF rest.length isBreak cfl (b :: rest) code =
@@ -559,6 +629,7 @@ theorem BranchOK.here {c : BI} {ctx : List BI} {b : Block} {rest : List Block} {
     | try_ => exact hc.elim
     | scope n => exact hc.elim
     | with_ => exact hc.elim
+    | iscope => exact hc.elim
   · intro k hk
     rcases mem_pendAll_cons.1 hk with hk | hk
     · cases isBreak with
@@ -615,17 +686,38 @@ theorem BranchOK.here {c : BI} {ctx : List BI} {b : Block} {rest : List Block} {
     | try_ => exact hc.elim
     | scope n => exact hc.elim
     | with_ => exact hc.elim
+    | iscope => exact hc.elim
 
-theorem matchB_typ_ne_iter {c : BI} {b : Block} (h : MatchB c b) : b.typ ≠ BT.iterScope := by
+theorem matchB_typ_ne_iter {c : BI} {b : Block} (h : MatchB c b) (hc : c ≠ BI.iscope) : b.typ ≠ BT.iterScope := by
   obtain ⟨_, h2⟩ := h
-  cases c <;> (intro hh; simp [hh] at h2)
+  cases c <;> first | exact absurd rfl hc | (intro hh; simp [hh] at h2)
+
+theorem fbb_lt (l : Option Label) (isBreak : Bool) {t : Nat} :
+    ∀ (blocks : List Block) (ctx : List BI), Match ctx blocks → findBreakBlock l isBreak blocks = some t → t < blocks.length := by
+  intro blocks
+  induction blocks with
+  | nil => intro ctx _ h; cases l <;> simp [findBreakBlock, findLabelled, findUnlabelled] at h
+  | cons b rest ih =>
+    intro ctx hm h
+    cases ctx with
+    | nil => exact absurd hm (by simp [Match])
+    | cons c ctx =>
+      obtain ⟨hmb, hmr⟩ := hm
+      rw [fbb_cons l isBreak b rest hmb.1] at h
+      by_cases htb : tgtB l isBreak b = true
+      · simp only [htb, if_true, Option.some.injEq] at h
+        simp [← h]
+      · simp only [htb, Bool.false_eq_true, if_false] at h
+        have := ih ctx hmr h
+        simp; omega
 
 /-- findBreakBlock + emitBlockExitCode agree with `findBrk` on every block stack that matches `ctx` -/
-theorem branch_walk (l : Option Label) (isBreak cfl : Bool) :
+theorem branch_walk (l : Option Label) (isBreak : Bool) :
     ∀ (blocks : List Block) (ctx : List BI) (code : Array Instr) (ex : List Instr) (tgt : Nat),
       Match ctx blocks → (∀ k, k ∈ pendAll blocks → k < code.size) → findBrk l isBreak ctx = some (ex, tgt) →
       ∃ t, t < blocks.length ∧ findBreakBlock l isBreak blocks = some t ∧
-        BranchOK ctx blocks code ex tgt (branchF t isBreak cfl blocks code) := by
+        (isBreak = false → typAtHeight t blocks = some BT.loop) ∧
+        BranchOK ctx blocks code ex tgt (branchF t isBreak (!isBreak) blocks code) := by
   intro blocks
   induction blocks with
   | nil =>
@@ -641,16 +733,18 @@ theorem branch_walk (l : Option Label) (isBreak cfl : Bool) :
       obtain ⟨hmb, hmr⟩ := hm
       have hbk : b.breaking = none := hmb.1
       have hrestp : ∀ k, k ∈ pendAll rest → k < code.size := fun k hk => hp k (mem_pendAll_cons.2 (Or.inr hk))
-      have hnit := matchB_typ_ne_iter hmb
       -- recursion through a non-target block
       have pass : tgtB l isBreak b = false → ∀ (code1 : Array Instr) (ex' : List Instr),
           (∀ k, k ∈ pendAll rest → k < code1.size) → findBrk l isBreak ctx = some (ex', tgt) →
           ∃ t, t < (b :: rest).length ∧ findBreakBlock l isBreak (b :: rest) = some t ∧ rest.length ≠ t ∧
-            BranchOK ctx rest code1 ex' tgt (branchF t isBreak cfl rest code1) := by
+            (isBreak = false → typAtHeight t (b :: rest) = some BT.loop) ∧ findBreakBlock l isBreak rest = some t ∧
+            BranchOK ctx rest code1 ex' tgt (branchF t isBreak (!isBreak) rest code1) := by
         intro htb code1 ex' hp1 hf'
-        obtain ⟨t, ht, hfb, hok⟩ := ih ctx code1 ex' tgt hmr hp1 hf'
-        refine ⟨t, by simp; omega, ?_, by omega, hok⟩
-        rw [fbb_cons l isBreak b rest hbk, htb]; simpa using hfb
+        obtain ⟨t, ht, hfb, hty', hok⟩ := ih ctx code1 ex' tgt hmr hp1 hf'
+        have hne : rest.length ≠ t := by omega
+        refine ⟨t, by simp; omega, ?_, hne, ?_, hfb, hok⟩
+        · rw [fbb_cons l isBreak b rest hbk, htb]; simpa using hfb
+        · intro hib; simp only [typAtHeight, hne, if_false]; exact hty' hib
       cases c with
       | loop lab bp cp =>
         obtain ⟨_, hty, hlab⟩ := hmb
@@ -663,15 +757,15 @@ theorem branch_walk (l : Option Label) (isBreak cfl : Bool) :
         · simp only [hlm, if_true, Option.some.injEq, Prod.mk.injEq] at hf
           obtain ⟨hex, htg⟩ := hf
           subst hex
-          refine ⟨rest.length, by simp, ?_, ?_⟩
+          refine ⟨rest.length, by simp, ?_, fun _ => by simp [typAtHeight, hty], ?_⟩
           · rw [fbb_cons l isBreak b rest hbk, htb, hlm]; rfl
           · rw [branchF_here]
             exact BranchOK.here (c := BI.loop lab bp cp) ⟨hbk, hty, hlab⟩ hmr hp htg.symm
         · have hlm' : labMatch l lab = false := by simpa using hlm
           simp only [hlm', Bool.false_eq_true, if_false] at hf
-          obtain ⟨t, ht, hfb, hne, hok⟩ := pass (by rw [htb, hlm']) code ex hrestp hf
-          refine ⟨t, ht, hfb, ?_⟩
-          rw [branchF_cons t isBreak cfl b rest code hne hnit]
+          obtain ⟨t, ht, hfb, hne, htyp, _, hok⟩ := pass (by rw [htb, hlm']) code ex hrestp hf
+          refine ⟨t, ht, hfb, htyp, ?_⟩
+          rw [branchF_cons t isBreak (!isBreak) b rest code hne (fun h => by simp [hty] at h)]
           have hs : stepB b code = (b, code) := by simp [stepB, hty]
           rw [hs]
           exact BranchOK.lift0 (c := BI.loop lab bp cp) ⟨hbk, hty, hlab⟩ hp hok
@@ -687,7 +781,7 @@ theorem branch_walk (l : Option Label) (isBreak cfl : Bool) :
             simp only [hib, if_true, Option.some.injEq, Prod.mk.injEq] at hf
             obtain ⟨hex, htg⟩ := hf
             subst hex
-            refine ⟨rest.length, by simp, ?_, ?_⟩
+            refine ⟨rest.length, by simp, ?_, fun h => by simp at h, ?_⟩
             · rw [fbb_cons (some y) true b rest hbk]; simp [tgtB, hlab]
             · rw [branchF_here]
               exact BranchOK.here (c := BI.label y bp) ⟨hbk, hty, hlab, hco⟩ hmr hp ⟨rfl, htg.symm⟩
@@ -699,9 +793,9 @@ theorem branch_walk (l : Option Label) (isBreak cfl : Bool) :
             | some x =>
               have : ¬ (y = x) := fun h => hly (by rw [h])
               simp [tgtB, hlab, this]
-          obtain ⟨t, ht, hfb, hne, hok⟩ := pass htb code ex hrestp hf
-          refine ⟨t, ht, hfb, ?_⟩
-          rw [branchF_cons t isBreak cfl b rest code hne hnit]
+          obtain ⟨t, ht, hfb, hne, htyp, _, hok⟩ := pass htb code ex hrestp hf
+          refine ⟨t, ht, hfb, htyp, ?_⟩
+          rw [branchF_cons t isBreak (!isBreak) b rest code hne (fun h => by simp [hty] at h)]
           have hs : stepB b code = (b, code) := by simp [stepB, hty]
           rw [hs]
           exact BranchOK.lift0 (c := BI.label y bp) ⟨hbk, hty, hlab, hco⟩ hp hok
@@ -717,10 +811,10 @@ theorem branch_walk (l : Option Label) (isBreak cfl : Bool) :
           subst hex; subst htg
           have htb : tgtB l isBreak b = false := by
             cases l <;> simp [tgtB, hty, hlab]
-          obtain ⟨t, ht, hfb, hne, hok⟩ := pass htb (code.push Instr.leaveTry) ex'
+          obtain ⟨t, ht, hfb, hne, htyp, _, hok⟩ := pass htb (code.push Instr.leaveTry) ex'
             (fun k hk => by simp; exact Nat.lt_succ_of_lt (hrestp k hk)) hfr
-          refine ⟨t, ht, hfb, ?_⟩
-          rw [branchF_cons t isBreak cfl b rest code hne hnit]
+          refine ⟨t, ht, hfb, htyp, ?_⟩
+          rw [branchF_cons t isBreak (!isBreak) b rest code hne (fun h => by simp [hty] at h)]
           have hs : stepB b code = (b, code.push Instr.leaveTry) := by simp [stepB, hty]
           rw [hs]
           exact BranchOK.lift1 (c := BI.try_) (b' := b) (i1 := Instr.leaveTry) ⟨hbk, hty, hlab, hbr, hco⟩
@@ -737,10 +831,10 @@ theorem branch_walk (l : Option Label) (isBreak cfl : Bool) :
           subst hex; subst htg
           have htb : tgtB l isBreak b = false := by
             cases l <;> simp [tgtB, hty, hlab]
-          obtain ⟨t, ht, hfb, hne, hok⟩ := pass htb (code.push Instr.leaveWith) ex'
+          obtain ⟨t, ht, hfb, hne, htyp, _, hok⟩ := pass htb (code.push Instr.leaveWith) ex'
             (fun k hk => by simp; exact Nat.lt_succ_of_lt (hrestp k hk)) hfr
-          refine ⟨t, ht, hfb, ?_⟩
-          rw [branchF_cons t isBreak cfl b rest code hne hnit]
+          refine ⟨t, ht, hfb, htyp, ?_⟩
+          rw [branchF_cons t isBreak (!isBreak) b rest code hne (fun h => by simp [hty] at h)]
           have hs : stepB b code = (b, code.push Instr.leaveWith) := by simp [stepB, hty]
           rw [hs]
           exact BranchOK.lift1 (c := BI.with_) (b' := b) (i1 := Instr.leaveWith) ⟨hbk, hty, hlab, hbr, hco⟩
@@ -757,10 +851,10 @@ theorem branch_walk (l : Option Label) (isBreak cfl : Bool) :
           subst hex; subst htg
           have htb : tgtB l isBreak b = false := by
             cases l <;> simp [tgtB, hty, hlab]
-          obtain ⟨t, ht, hfb, hne, hok⟩ := pass htb (code.push Instr.nop) ex'
+          obtain ⟨t, ht, hfb, hne, htyp, _, hok⟩ := pass htb (code.push Instr.nop) ex'
             (fun k hk => by simp; exact Nat.lt_succ_of_lt (hrestp k hk)) hfr
-          refine ⟨t, ht, hfb, ?_⟩
-          rw [branchF_cons t isBreak cfl b rest code hne hnit]
+          refine ⟨t, ht, hfb, htyp, ?_⟩
+          rw [branchF_cons t isBreak (!isBreak) b rest code hne (fun h => by simp [hty] at h)]
           have hs : stepB b code = ({ b with breaks := b.breaks ++ [code.size] }, code.push Instr.nop) := by
             simp [stepB, hty]
           rw [hs]
@@ -781,6 +875,121 @@ theorem branch_walk (l : Option Label) (isBreak cfl : Bool) :
             (fun k hk => by simp [resolveHere, hk])
             (by simp [resolveHere]) rfl hok
 
+      | iscope =>
+        obtain ⟨_, hty, hlab, hco⟩ := hmb
+        simp only [findBrk] at hf
+        cases hfr : findBrk l isBreak ctx with
+        | none => simp [hfr] at hf
+        | some pr =>
+          obtain ⟨ex0, t0⟩ := pr
+          simp only [hfr] at hf
+          have htb : tgtB l isBreak b = false := by
+            cases l <;> simp [tgtB, hty, hlab]
+          by_cases hstop : (!isBreak && hitsHead l ctx) = true
+          · -- `continue` of the loop that owns this per-iteration scope: the walk stops here
+            simp only [hstop, if_true, Option.some.injEq, Prod.mk.injEq] at hf
+            obtain ⟨hex, htg⟩ := hf
+            subst hex; subst htg
+            have hib : isBreak = false := by
+              cases isBreak with
+              | false => rfl
+              | true => simp at hstop
+            subst hib
+            obtain ⟨t, ht, hfb, hne, htyp, hfbr, hok⟩ := pass htb code ex0 hrestp hfr
+            have hlen : rest.length = t + 1 := by
+              cases ctx with
+              | nil => simp [hitsHead] at hstop
+              | cons c1 ctx1 =>
+                cases rest with
+                | nil => exact absurd hmr (by simp [Match])
+                | cons lb r =>
+                  cases c1 with
+                  | loop lab bp cp =>
+                    obtain ⟨hbk1, hty1, hlab1⟩ := hmr.1
+                    have hlm : labMatch l lab = true := by simpa [hitsHead] using hstop
+                    have htb1 : tgtB l false lb = true := by
+                      cases l with
+                      | none => simp [tgtB, hty1]
+                      | some x => simpa [tgtB, labMatch, hlab1] using hlm
+                    rw [fbb_cons l false lb r hbk1, htb1] at hfbr
+                    simp only [if_true, Option.some.injEq] at hfbr
+                    simp [← hfbr]
+                  | label _ _ => simp [hitsHead] at hstop
+                  | try_ => simp [hitsHead] at hstop
+                  | scope _ => simp [hitsHead] at hstop
+                  | with_ => simp [hitsHead] at hstop
+                  | iscope => simp [hitsHead] at hstop
+            refine ⟨t, ht, hfb, htyp, ?_⟩
+            rw [show (!false) = true from rfl, branchF_stop t false b rest code hty hlen]
+            exact BranchOK.lift0 (c := BI.iscope) ⟨hbk, hty, hlab, hco⟩ hp hok
+          · -- every other branch leaves the scope (placeholder patched to leaveBlock by leaveScopeBlock)
+            have hstop' : (!isBreak && hitsHead l ctx) = false := by simpa using hstop
+            simp only [hstop', Bool.false_eq_true, if_false, Option.some.injEq, Prod.mk.injEq] at hf
+            obtain ⟨hex, htg⟩ := hf
+            subst hex; subst htg
+            obtain ⟨t, ht, hfb, hne, htyp, hfbr, hok⟩ := pass htb (code.push Instr.nop) ex0
+              (fun k hk => by simp; exact Nat.lt_succ_of_lt (hrestp k hk)) hfr
+            have hns : ¬ (b.typ = BT.iterScope ∧ (!isBreak) = true ∧ rest.length = t + 1) := by
+              rintro ⟨_, hcf, hlen⟩
+              have hib : isBreak = false := by simpa using hcf
+              subst hib
+              have hhh : hitsHead l ctx = false := by simpa using hstop'
+              cases rest with
+              | nil => simp at hlen
+              | cons lb r =>
+                have hr : r.length = t := by simpa using hlen
+                cases ctx with
+                | nil => exact absurd hmr (by simp [Match])
+                | cons c1 ctx1 =>
+                  obtain ⟨hm1, hmr1⟩ := hmr
+                  have hbk1 : lb.breaking = none := hm1.1
+                  rw [fbb_cons l false lb r hbk1] at hfbr
+                  by_cases htb1 : tgtB l false lb = true
+                  · cases c1 with
+                    | loop lab bp cp =>
+                      obtain ⟨_, hty1, hlab1⟩ := hm1
+                      have hlm : labMatch l lab = true := by
+                        cases l with
+                        | none => simp [labMatch]
+                        | some x => simpa [tgtB, labMatch, hlab1] using htb1
+                      simp [hitsHead, hlm] at hhh
+                    | label y bp =>
+                      obtain ⟨_, hty1, hlab1, _⟩ := hm1
+                      cases l with
+                      | none => simp [tgtB, hty1] at htb1
+                      | some x =>
+                        have hxy : y = x := by simpa [tgtB, hlab1] using htb1
+                        subst hxy
+                        simp [findBrk] at hfr
+                    | try_ => obtain ⟨_, hty1, hlab1, _⟩ := hm1; cases l <;> simp [tgtB, hty1, hlab1] at htb1
+                    | scope n => obtain ⟨_, hty1, hlab1, _⟩ := hm1; cases l <;> simp [tgtB, hty1, hlab1] at htb1
+                    | with_ => obtain ⟨_, hty1, hlab1, _⟩ := hm1; cases l <;> simp [tgtB, hty1, hlab1] at htb1
+                    | iscope => obtain ⟨_, hty1, hlab1, _⟩ := hm1; cases l <;> simp [tgtB, hty1, hlab1] at htb1
+                  · simp only [htb1, Bool.false_eq_true, if_false] at hfbr
+                    have := fbb_lt l false r ctx1 hmr1 hfbr
+                    omega
+            refine ⟨t, ht, hfb, htyp, ?_⟩
+            rw [branchF_cons t isBreak (!isBreak) b rest code hne hns]
+            have hs : stepB b code = ({ b with breaks := b.breaks ++ [code.size] }, code.push Instr.nop) := by
+              simp [stepB, hty]
+            rw [hs]
+            have hnb : code.size ∉ b.breaks := fun h =>
+              Nat.lt_irrefl _ (hp _ (mem_pendAll_cons.2 (Or.inl (List.mem_append_left _ h))))
+            exact BranchOK.lift1 (c := BI.iscope) (b' := { b with breaks := b.breaks ++ [code.size] }) (i1 := Instr.nop)
+              ⟨hbk, hty, hlab, hco⟩ ⟨hbk, hty, hlab, hco⟩ hp
+              (fun k => by
+                simp only [resolveHere, List.mem_append, List.mem_singleton, or_true, if_true, hco, List.append_nil,
+                  List.not_mem_nil, or_false]
+                constructor
+                · rintro (h | h)
+                  · exact Or.inl h
+                  · exact Or.inr ⟨h, by simp⟩
+                · rintro (h | h)
+                  · exact Or.inl h
+                  · exact Or.inr h.1)
+              (fun k hk => by simp [resolveHere, hk])
+              (by simp [resolveHere]) rfl hok
+
 theorem RL_getElem? (ctx : List BI) (cs : CS) (k : Nat) :
     (RL ctx cs)[k]? = if k < cs.code.size then some (vw ctx cs.blocks cs.code k) else none := by
   simp only [RL, vw, List.getElem?_map]
@@ -795,14 +1004,15 @@ theorem RL_branch {ctx : List BI} {cs : CS} (l : Option Label) (isBreak : Bool) 
     Inv ctx (compileBranch l isBreak cs) ∧
     (∀ k, k ∈ pendAll (compileBranch l isBreak cs).blocks → k ∈ pendAll cs.blocks ∨ cs.code.size ≤ k) ∧
     (compileBranch l isBreak cs).blocks.map Block.cont = cs.blocks.map Block.cont := by
-  obtain ⟨t, _, hfb, _⟩ := branch_walk l isBreak false cs.blocks ctx cs.code ex tgt hi.m hi.p hf
-  obtain ⟨t', _, hfb', hok⟩ := branch_walk l isBreak (!isBreak && typAtHeight t cs.blocks == some BT.loop)
-    cs.blocks ctx cs.code ex tgt hi.m hi.p hf
-  have htt : t' = t := by rw [hfb] at hfb'; exact (Option.some.inj hfb').symm
-  subst htt
+  obtain ⟨t', _, hfb, htyp, hok⟩ := branch_walk l isBreak cs.blocks ctx cs.code ex tgt hi.m hi.p hf
+  have hcfl : (!isBreak && typAtHeight t' cs.blocks == some BT.loop) = !isBreak := by
+    cases hib : isBreak with
+    | true => rfl
+    | false => simp [htyp hib]
   rw [compileBranch_eq, hfb]
   simp only
-  generalize branchF t' isBreak (!isBreak && typAtHeight t' cs.blocks == some BT.loop) cs.blocks cs.code = F at hok
+  rw [hcfl]
+  generalize branchF t' isBreak (!isBreak) cs.blocks cs.code = F at hok
   refine ⟨?_, ⟨hok.m, hok.lt⟩, hok.new, hok.conts⟩
   apply List.ext_getElem?
   intro k
@@ -937,6 +1147,46 @@ theorem InR.modTop_cont {c : BI} {ctx : List BI} {cs0 cs1 : CS} {G : List Instr}
       rw [hb] at this
       simpa [CS.modTop, hb] using this
 
+/-- `for (let …;;)`: the continue target of the LOOP block (second from the top, below its per-iteration scope)
+is set after the body has been compiled -/
+theorem InR.modSecond {c c1 : BI} {ctx : List BI} {cs0 cs1 : CS} {G : List Instr} (h : InR c (c1 :: ctx) cs0 cs1 G) (n : Nat)
+    {sb lb : Block} {r : List Block} (hb : cs1.blocks = sb :: lb :: r) :
+    InR c (c1 :: ctx) (cs0.modTop (fun b => { b with cont := n }))
+      { cs1 with blocks := sb :: { lb with cont := n } :: r } G := by
+  have hres : ∀ k, resolveHere c1 { lb with cont := n } k = resolveHere c1 lb k := by
+    intro k; cases c1 <;> rfl
+  have hpa : pendAll (sb :: { lb with cont := n } :: r) = pendAll cs1.blocks := by
+    rw [hb]; simp [pendAll, List.flatMap_cons]
+  have hpa0 : pendAll (cs0.modTop (fun b => { b with cont := n })).blocks = pendAll cs0.blocks := by
+    cases hb0 : cs0.blocks with
+    | nil => simp [CS.modTop, hb0]
+    | cons b r => simp [CS.modTop, hb0, pendAll, List.flatMap_cons]
+  have hsz0 : (cs0.modTop (fun b => { b with cont := n })).code.size = cs0.code.size := by
+    simp only [CS.modTop]; split <;> rfl
+  have hm := h.inv.m
+  rw [hb] at hm
+  obtain ⟨hm0, hm1, hm2⟩ := hm
+  refine ⟨?_, ⟨⟨hm0, ?_, hm2⟩, fun k hk => h.inv.p k (by rw [← hpa]; exact hk)⟩, ?_, ?_⟩
+  · rw [RL_modTop_cont, ← h.rl]
+    apply RL_ext (ctx := c :: c1 :: ctx) (ctx' := c :: c1 :: ctx) (cs := cs1)
+      (cs' := { cs1 with blocks := sb :: { lb with cont := n } :: r }) rfl
+    intro k _
+    simp only [hb, pend, hres]
+  · obtain ⟨h1, h2⟩ := hm1
+    refine ⟨h1, ?_⟩
+    cases c1 <;> exact h2
+  · intro k hk
+    rw [hpa0, hsz0]
+    exact h.new k (by rw [← hpa]; exact hk)
+  · have hct := h.ct
+    rw [hb] at hct
+    cases hb0 : cs0.blocks with
+    | nil => rw [hb0] at hct; simp at hct
+    | cons b0 r0 =>
+      rw [hb0] at hct
+      simp only [List.tail_cons, List.map_cons, List.cons.injEq] at hct
+      simp [CS.modTop, hb0, hct.2]
+
 theorem InR.patch {c : BI} {ctx : List BI} {cs0 cs2 : CS} {A B : List Instr} {y : Instr} (x : Instr) {q : Nat}
     (h : InR c ctx cs0 cs2 (A ++ y :: B)) (hq : q = cs0.code.size + A.length) (hfresh : q ∉ pendAll cs2.blocks) :
     InR c ctx cs0 (cs2.patch q x) (A ++ x :: B) := by
@@ -975,6 +1225,21 @@ theorem InR.leaveScope {ctx : List BI} {cs0 cs2 : CS} {G : List Instr} {n : Nat}
   obtain ⟨b, r, hb, hmb, _⟩ := match_cons h.inv.m
   obtain ⟨h1, h2⟩ := RL_leaveScopeBlock hb h.inv
   have hbl : (cs2.leaveScopeBlock n).blocks = r := by
+    simp [CS.leaveScopeBlock, CS.emit, hb, CS.leaveBlock]
+  refine ⟨by rw [h1, h.rl, List.append_assoc], h2, ?_, ?_⟩
+  · intro k hk
+    rw [hbl] at hk
+    exact h.new k (by rw [hb]; exact pendAll_tail hk)
+  · rw [hbl]
+    have := h.ct
+    rw [hb] at this
+    simpa using this
+
+theorem InR.leaveScopeI {ctx : List BI} {cs0 cs2 : CS} {G : List Instr} (h : InR BI.iscope ctx cs0 cs2 G) :
+    EqR ctx cs0 (cs2.leaveScopeBlock 1) (G ++ [Instr.leaveBlock 1]) := by
+  obtain ⟨b, r, hb, hmb, _⟩ := match_cons h.inv.m
+  obtain ⟨h1, h2⟩ := RL_leaveScopeBlockI hb h.inv
+  have hbl : (cs2.leaveScopeBlock 1).blocks = r := by
     simp [CS.leaveScopeBlock, CS.emit, hb, CS.leaveBlock]
   refine ⟨by rw [h1, h.rl, List.append_assoc], h2, ?_, ?_⟩
   · intro k hk
@@ -1026,6 +1291,10 @@ theorem returnExits_eq {ctx : List BI} {blocks : List Block} (hm : Match ctx blo
         exact ih hmr _
       | with_ =>
         have ht : b.typ = BT.with_ := hmb.1
+        simp only [returnExits, ht, retExitsS]
+        exact ih hmr _
+      | iscope =>
+        have ht : b.typ = BT.iterScope := hmb.1
         simp only [returnExits, ht, retExitsS]
         exact ih hmr _
 
@@ -1363,10 +1632,113 @@ theorem cf_eq (s : Stmt) : ∀ (cur : Nat) (lab : Option Label) (ctx : List BI) 
   | loop k id n body ih =>
     intro cur lab ctx cs hst _ hi hnop
     simp only [stage1, Bool.and_eq_true, bne_iff_ne, ne_eq] at hst
-    obtain ⟨⟨⟨hk1, hk2⟩, hstb⟩, _⟩ := hst
+    obtain ⟨⟨hk1, hstb⟩, _⟩ := hst
     cases k with
     | forin => exact absurd rfl hk1
-    | forlet => exact absurd rfl hk2
+    | forlet =>
+      simp only [gen] at hnop ⊢
+      generalize hlb : glen body none (BS.iscope :: BS.loop lab :: ctx.map BI.shape) = lb at *
+      have hnb : Instr.nop ∉ gen body id none
+          (BI.iscope :: BI.loop lab (cs.code.size + 3 + 2 + lb + 3 + 1) (cs.code.size + 3 + 2 + lb) :: ctx)
+          (cs.code.size + 3 + 2) := fun h => hnop (by simp [h])
+      let c1 : BI := BI.loop lab (cs.code.size + 3 + 2 + lb + 3 + 1) (cs.code.size + 3 + 2 + lb)
+      let cs1 := cs.push { typ := BT.loop, label := lab }
+      have P0 : InR c1 ctx cs cs1 [] := InR.push hi ⟨rfl, rfl, rfl⟩ rfl rfl
+      let cs2 := cs1.push { typ := BT.iterScope }
+      have Q0 : InR BI.iscope (c1 :: ctx) cs1 cs2 [] := InR.push P0.inv ⟨rfl, rfl, rfl, rfl⟩ rfl rfl
+      let cs3 := cs2.emit (Instr.enterBlock 1)
+      let cs4 := cs3.emit (Instr.cntZero id)
+      let cs5 := cs4.emit Instr.copyStash
+      let cs6 := cs5.emit (Instr.cntLt id n)
+      let cs7 := cs6.emit Instr.nop
+      have Q2 : InR BI.iscope (c1 :: ctx) cs1 cs7
+          [Instr.enterBlock 1, Instr.cntZero id, Instr.copyStash, Instr.cntLt id n, Instr.nop] := by
+        have a := Q0.step (EqR.emit Q0.inv (Instr.enterBlock 1))
+        have b := a.step (EqR.emit a.inv (Instr.cntZero id))
+        have c' := b.step (EqR.emit b.inv Instr.copyStash)
+        have d := c'.step (EqR.emit c'.inv (Instr.cntLt id n))
+        have e := d.step (EqR.emit d.inv Instr.nop)
+        simpa using e
+      have hs1 : cs1.code.size = cs.code.size := rfl
+      have hs7 : cs7.code.size = cs.code.size + 3 + 2 := by rw [Q2.size]; rfl
+      have hb7 : cs7.blocks = { typ := BT.iterScope } :: { typ := BT.loop, label := lab } :: cs.blocks := by
+        simp [cs7, cs6, cs5, cs4, cs3, cs2, cs1, CS.emit, CS.push]
+      have A := ih id none (BI.iscope :: c1 :: ctx) cs7 hstb (fun _ => rfl) Q2.inv (by rw [hs7]; exact hnb)
+      rw [hs7] at A
+      let cs8 := compileCF id none body cs7
+      have hs8 : cs8.code.size = cs.code.size + 3 + 2 + lb := by
+        rw [A.size, hs7, gen_length]; simp only [List.map_cons, BI.shape, c1, hlb]
+      obtain ⟨sb, r8, hb8, _, hm8⟩ := match_cons A.inv.m
+      obtain ⟨lb8, r, hb8', _, _⟩ := match_cons hm8
+      rw [hb8'] at hb8
+      let cs9 : CS := { cs8 with blocks := match cs8.blocks with
+                                            | sb :: lb :: r => sb :: { lb with cont := cs8.size } :: r
+                                            | bs => bs }
+      have h9 : cs9 = { cs8 with blocks := sb :: { lb8 with cont := cs8.size } :: r } := by
+        simp only [cs9]
+        have hb8c : cs8.blocks = sb :: lb8 :: r := hb8
+        rw [hb8c]
+      have Qm : InR BI.iscope (c1 :: ctx) (cs1.modTop (fun b => { b with cont := cs8.size })) cs9
+          ([Instr.enterBlock 1, Instr.cntZero id, Instr.copyStash, Instr.cntLt id n, Instr.nop] ++
+            gen body id none (BI.iscope :: c1 :: ctx) (cs.code.size + 3 + 2)) := by
+        rw [h9]; exact (Q2.step A).modSecond cs8.size hb8
+      let cs10 := cs9.emit Instr.copyStash
+      let cs11 := cs10.emit (Instr.cntInc id)
+      let cs12 := cs11.emit (Instr.jump (CS.rel cs5.size cs11.size))
+      have Qa := Qm.step (EqR.emit Qm.inv Instr.copyStash)
+      have Qb := Qa.step (EqR.emit Qa.inv (Instr.cntInc id))
+      have Qc := Qb.step (EqR.emit Qb.inv (Instr.jump (CS.rel cs5.size cs11.size)))
+      have hs9 : cs9.code.size = cs8.code.size := by rw [h9]
+      have hs12 : cs12.code.size = cs.code.size + 3 + 2 + lb + 3 := by
+        simp [cs12, cs11, cs10, CS.emit, hs9, hs8]
+      have e6 : cs6.size = cs.code.size + 4 := by simp [cs6, cs5, cs4, cs3, cs2, cs1, CS.emit, CS.push, CS.size]
+      have hpend12 : pendAll cs12.blocks = pendAll cs8.blocks := by
+        have : cs12.blocks = sb :: { lb8 with cont := cs8.size } :: r := by
+          simp only [cs12, cs11, cs10, CS.emit]; rw [h9]
+        rw [this]; show _ = pendAll cs8.blocks; rw [hb8]; simp [pendAll, List.flatMap_cons]
+      have hfresh : cs.code.size + 4 ∉ pendAll cs12.blocks := by
+        rw [hpend12]
+        apply fresh_of_new (bs0 := cs7.blocks) (n := cs.code.size + 3 + 2)
+        · intro k hk
+          rw [hb7] at hk
+          have : k ∈ pendAll cs.blocks := by simpa [pendAll, List.flatMap_cons] using hk
+          have := hi.p k this
+          omega
+        · omega
+        · intro k hk
+          rcases A.new k hk with h | h
+          · exact Or.inl h
+          · exact Or.inr (by rw [hs7] at h; exact h)
+      have hsm : (cs1.modTop (fun b => { b with cont := cs8.size })).code.size = cs.code.size := rfl
+      have Q5 := InR.patch (A := [Instr.enterBlock 1, Instr.cntZero id, Instr.copyStash, Instr.cntLt id n]) (y := Instr.nop)
+        (Instr.jneP (CS.rel cs12.size cs6.size)) (q := cs6.size)
+        (by simpa using Qc) (by rw [e6, hsm]; rfl) (by rw [e6]; exact hfresh)
+      have LS := Q5.leaveScopeI
+      have P1 := (P0.modTop_cont cs8.size).step LS
+      have hsL : ((cs12.patch cs6.size (Instr.jneP (CS.rel cs12.size cs6.size))).leaveScopeBlock 1).code.size
+          = cs.code.size + 3 + 2 + lb + 3 + 1 := by
+        rw [LS.size, hsm]
+        simp only [List.length_append, List.length_cons, List.length_nil, gen_length, List.map_cons, BI.shape, c1, hlb]
+        omega
+      have L := P1.leave (fun b r' hb => by
+        refine ⟨hsL.symm, ?_⟩
+        have hct := LS.conts
+        rw [hb] at hct
+        simp only [cs1, CS.modTop, CS.push, List.map_cons, List.cons.injEq] at hct
+        show cs.code.size + 3 + 2 + lb = b.cont
+        rw [hct.1]
+        exact hs8.symm)
+      have hstate : compileCF cur lab (Stmt.loop LoopKind.forlet id n body) cs
+          = ((cs12.patch cs6.size (Instr.jneP (CS.rel cs12.size cs6.size))).leaveScopeBlock 1).leaveBlock := rfl
+      rw [hstate]
+      have e5 : cs5.size = cs.code.size + 3 := by simp [cs5, cs4, cs3, cs2, cs1, CS.emit, CS.push, CS.size]
+      have e11 : cs11.size = cs.code.size + 3 + 2 + lb + 2 := by
+        show cs11.code.size = _
+        simp [cs11, cs10, CS.emit, hs9, hs8]
+      have e12 : cs12.size = cs.code.size + 3 + 2 + lb + 3 := hs12
+      refine L.congrG ?_
+      rw [e12, e6, e5, e11]
+      simp [c1, Nat.add_assoc]
     | while_ =>
       simp only [gen] at hnop ⊢
       generalize hlb : glen body none (BS.loop lab :: ctx.map BI.shape) = lb at *
